@@ -1723,3 +1723,171 @@ Proof.
   split; [now apply nodupb_NoDup|]. split; [|exact Hdims].
   intros n Hn. pose proof (proj1 (forallb_forall _ _) Hns n Hn) as Hf. apply negb_true_iff in Hf. now apply mem_name_false.
 Qed.
+
+(* ------------------------------------------------------------------------------------ *)
+(* several live objects: selections, copies, the objects a history leaves behind         *)
+(* ------------------------------------------------------------------------------------ *)
+Lemma pick_recs_in recs : forall idx rs, pick_recs recs idx = Some rs -> forall r, In r rs -> In r recs.
+Proof.
+  induction idx as [|i idx IH]; intros rs H r Hr; cbn [pick_recs] in H.
+  - injection H as <-. destruct Hr.
+  - destruct (norm_index (len recs) i) as [j|]; [|discriminate].
+    destruct (nth_error recs (Z.to_nat j)) as [x|] eqn:Ex; [|discriminate].
+    destruct (pick_recs recs idx) as [xs|]; [|discriminate]. injection H as <-.
+    destruct Hr as [<-|Hr]; [now apply nth_error_In in Ex|now apply (IH xs)].
+Qed.
+
+Lemma norm_index_range n i j : norm_index n i = Some j -> 0 <= j < n /\ (j = i \/ j = i + n).
+Proof.
+  unfold norm_index. destruct ((0 <=? i) && (i <? n)) eqn:A.
+  - intros [= <-]. lia.
+  - destruct ((- n <=? i) && (i <? 0)) eqn:B; [|discriminate]. intros [= <-]. lia.
+Qed.
+
+Lemma norm_index_some n i : - n <= i < n -> exists j, norm_index n i = Some j.
+Proof.
+  intros H. unfold norm_index. destruct ((0 <=? i) && (i <? n)) eqn:A; [now eexists|].
+  destruct ((- n <=? i) && (i <? 0)) eqn:B; [now eexists|]. lia.
+Qed.
+
+Lemma norm_index_none n i : ~ (- n <= i < n) -> norm_index n i = None.
+Proof.
+  intros H. unfold norm_index. destruct ((0 <=? i) && (i <? n)) eqn:A; [lia|].
+  destruct ((- n <=? i) && (i <? 0)) eqn:B; [lia|reflexivity].
+Qed.
+
+(* the selection holds, entry by entry, the record the index designates *)
+Lemma pick_recs_spec recs : forall idx rs, pick_recs recs idx = Some rs ->
+  Forall2 (fun i r => exists j, norm_index (len recs) i = Some j /\ nth_error recs (Z.to_nat j) = Some r) idx rs.
+Proof.
+  induction idx as [|i idx IH]; intros rs H; cbn [pick_recs] in H.
+  - injection H as <-. constructor.
+  - destruct (norm_index (len recs) i) as [j|] eqn:Ej; [|discriminate].
+    destruct (nth_error recs (Z.to_nat j)) as [x|] eqn:Ex; [|discriminate].
+    destruct (pick_recs recs idx) as [xs|]; [|discriminate]. injection H as <-.
+    constructor; [now exists j|now apply IH].
+Qed.
+
+Lemma pick_recs_ok recs : forall idx, (forall i, In i idx -> - len recs <= i < len recs) -> exists rs, pick_recs recs idx = Some rs.
+Proof.
+  induction idx as [|i idx IH]; intros H; [now eexists|]. cbn [pick_recs].
+  destruct (norm_index_some (len recs) i (H i (or_introl eq_refl))) as [j Ej]. rewrite Ej.
+  destruct (norm_index_range _ _ _ Ej) as [Hj _].
+  destruct (nth_error recs (Z.to_nat j)) as [x|] eqn:Ex.
+  - destruct IH as [rs ->]; [intros k Hk; apply H; now right|]. now eexists.
+  - apply nth_error_None in Ex. unfold len in Hj. lia.
+Qed.
+
+Lemma pick_recs_bad recs : forall idx, (exists i, In i idx /\ ~ (- len recs <= i < len recs)) -> pick_recs recs idx = None.
+Proof.
+  induction idx as [|i idx IH]; intros (k & Hk & Hbad); [destruct Hk|]. cbn [pick_recs].
+  destruct Hk as [->|Hk].
+  - now rewrite norm_index_none.
+  - destruct (norm_index (len recs) i) as [j|]; [|reflexivity].
+    destruct (nth_error recs (Z.to_nat j)); [|reflexivity]. rewrite IH; [reflexivity|now exists k].
+Qed.
+
+Lemma select_recs_wf s rs : InvB s -> (forall r, In r rs -> In r (st_recs s)) -> recs_wf s rs.
+Proof.
+  intros [(std & Hstd & _ & Hrecs) _ _] Hin std' Hstd' r Hr. rewrite Hstd in Hstd'. injection Hstd' as <-. apply Hrecs. now apply Hin.
+Qed.
+
+(* a selection is a LasData like any other: same point format, same extra dimensions, same VLRs, the selected records;
+   it satisfies the invariants its parent satisfies, so every theorem about histories applies to the histories that start
+   from it *)
+Theorem select_ok s idx s' : select s idx = Ok s' ->
+  st_fmt s' = st_fmt s /\ st_extras s' = st_extras s /\ st_vlrs s' = st_vlrs s
+  /\ Forall2 (fun i r => exists j, norm_index (len (st_recs s)) i = Some j /\ nth_error (st_recs s) (Z.to_nat j) = Some r) idx (st_recs s')
+  /\ (Inv2 s -> Inv2 s') /\ (Inv s -> Inv s').
+Proof.
+  unfold select. destruct (pick_recs (st_recs s) idx) as [rs|] eqn:E; [|discriminate]. intros [= <-].
+  cbn [st_fmt st_extras st_vlrs st_recs]. split; [reflexivity|]. split; [reflexivity|]. split; [reflexivity|].
+  split; [now apply pick_recs_spec|]. split.
+  - intros Hi. apply Inv2_recs; [exact Hi|]. apply select_recs_wf; [now apply Inv2_B|]. now apply (pick_recs_in _ _ _ E).
+  - intros Hi. apply Inv_recs; [exact Hi|]. apply select_recs_wf; [now apply Inv_B|]. now apply (pick_recs_in _ _ _ E).
+Qed.
+
+Theorem select_in_range s idx : (forall i, In i idx -> - len (st_recs s) <= i < len (st_recs s)) -> exists s', select s idx = Ok s'.
+Proof. intros H. unfold select. destruct (pick_recs_ok (st_recs s) idx H) as [rs ->]. now eexists. Qed.
+
+Theorem select_out_of_range s idx : (exists i, In i idx /\ ~ (- len (st_recs s) <= i < len (st_recs s))) -> select s idx = Err EIndex.
+Proof. intros H. unfold select. now rewrite pick_recs_bad. Qed.
+
+(* ---- the world ---- *)
+Lemma Forall_snoc {A} (P : A -> Prop) l x : Forall P l -> P x -> Forall P (l ++ [x]).
+Proof. intros H Hx. apply Forall_app. split; [exact H|now constructor]. Qed.
+
+Theorem wstep_inv w o : WInv w -> wop_okb w o = true -> WInv (fst (wstep w o)).
+Proof.
+  intros [Hc Ho] Hok. destruct o as [o|o|b idx|]; cbn [wstep wop_okb] in *.
+  - split; cbn [fst w_cur w_others]; [now apply step_inv2|exact Ho].
+  - destruct (snd (step (w_cur w) o)); cbn [fst]; [|now split].
+    split; cbn [w_cur w_others]; [now apply step_inv2|now apply Forall_snoc].
+  - destruct (select (w_cur w) idx) as [s'|e] eqn:E; cbn [fst]; [|now split].
+    destruct (select_ok _ _ _ E) as (_ & _ & _ & _ & H2 & _).
+    destruct b; split; cbn [w_cur w_others]; auto using Forall_snoc.
+  - split; cbn [fst w_cur w_others]; [exact Hc|now apply Forall_snoc].
+Qed.
+
+Lemma wrun_cons w o ops : wrun w (o :: ops) = wrun (fst (wstep w o)) ops.
+Proof. reflexivity. Qed.
+
+(* after any history, with any number of selections, copies and returned objects in it, EVERY live LasData satisfies the
+   invariant: its own record length, its own VLR *)
+Theorem wrun_inv ops : forall w, WInv w -> wops_okb w ops = true -> WInv (wrun w ops).
+Proof.
+  induction ops as [|o ops IH]; intros w Hinv Hok; [exact Hinv|].
+  cbn [wops_okb] in Hok. apply andb_true_iff in Hok as [Ho Hr]. rewrite wrun_cons. apply IH; [now apply wstep_inv|exact Hr].
+Qed.
+
+(* no step touches a LasData other than the current one: the others stay exactly what they were, in place; a step only
+   ever appends the object it leaves behind *)
+Theorem wstep_others_kept w o : exists new, w_others (fst (wstep w o)) = w_others w ++ new.
+Proof.
+  destruct o as [o|o|b idx|]; cbn [wstep].
+  - exists []. cbn. now rewrite app_nil_r.
+  - destruct (snd (step (w_cur w) o)); cbn [fst w_others]; [now eexists|exists []; now rewrite app_nil_r].
+  - destruct (select (w_cur w) idx) as [s'|e]; cbn [fst]; [destruct b; cbn [w_others]; now eexists|exists []; now rewrite app_nil_r].
+  - cbn [fst w_others]. now eexists.
+Qed.
+
+Theorem wrun_others_kept ops : forall w, exists new, w_others (wrun w ops) = w_others w ++ new.
+Proof.
+  induction ops as [|o ops IH]; intros w; [exists []; cbn; now rewrite app_nil_r|].
+  rewrite wrun_cons. destruct (IH (fst (wstep w o))) as [n2 H2]. destruct (wstep_others_kept w o) as [n1 H1].
+  exists (n1 ++ n2). now rewrite H2, H1, app_assoc.
+Qed.
+
+(* in particular the k-th live object is the same after any further history *)
+Corollary wrun_other_unchanged ops w k s : nth_error (w_others w) k = Some s -> nth_error (w_others (wrun w ops)) k = Some s.
+Proof.
+  intros H. destruct (wrun_others_kept ops w) as [new ->]. rewrite nth_error_app1; [exact H|].
+  apply nth_error_Some. now rewrite H.
+Qed.
+
+(* a history without such steps is a history of the single-object model: all theorems about `run` speak about the
+   current object of the world *)
+Theorem wrun_plain ops : forall w, wrun w (map WOp ops) = mkW (run (w_cur w) ops) (w_others w).
+Proof.
+  induction ops as [|o ops IH]; intros w; [now destruct w|].
+  cbn [map]. rewrite wrun_cons, IH. cbn [wstep fst w_cur w_others]. now rewrite run_cons.
+Qed.
+
+Theorem wops_okb_plain ops : forall w, wops_okb w (map WOp ops) = ops_okb (w_cur w) ops.
+Proof.
+  induction ops as [|o ops IH]; intros w; [reflexivity|]. cbn [map wops_okb ops_okb wop_okb]. now rewrite IH.
+Qed.
+
+(* what each kind of step leaves behind / goes on with *)
+Theorem wstep_new_ok w o : snd (step (w_cur w) o) = Ok tt ->
+  wstep w (WNew o) = (mkW (fst (step (w_cur w) o)) (w_others w ++ [w_cur w]), Ok tt).
+Proof. intros H. cbn [wstep]. now rewrite H. Qed.
+
+Theorem wstep_failed w o : snd (wstep w o) <> Ok tt -> (forall o', o <> WOp o') -> fst (wstep w o) = w.
+Proof.
+  intros H Hn. destruct o as [o|o|b idx|]; cbn [wstep] in *.
+  - now destruct (Hn o).
+  - destruct (snd (step (w_cur w) o)) as [[]|e]; [now destruct H|reflexivity].
+  - destruct (select (w_cur w) idx); [now destruct H|reflexivity].
+  - now destruct H.
+Qed.
